@@ -2,7 +2,6 @@ package bubble
 
 import (
 	"context"
-	"errors"
 	"math/rand"
 	"os"
 	"runtime"
@@ -13,7 +12,13 @@ import (
 	"github.com/bradenaw/juniper/stream"
 )
 
-var errSrc = errors.New("source error")
+// the sources' and the sender's own errors have their own dynamic types (not the *errors.errorString of errors.New and
+// of context.Canceled): code that stores errors of mixed types must cope
+type srcError struct{ what string }
+
+func (e *srcError) Error() string { return e.what }
+
+var errSrc error = &srcError{"source error"}
 
 type srcMsg struct {
 	kind int // 0 item, 1 end, 2 error
